@@ -9,6 +9,7 @@ mod tables_gen;
 mod slpp;
 mod slpp_oracles;
 mod arrow_oracle;
+mod c09;
 mod cases;
 mod sjis;
 mod spec_tables;
@@ -222,6 +223,7 @@ fn synth(cmd: &str, args: &[String]) -> i32 {
 	let c18 = |s: &gen::Spec, p: &Progress| -> Outcome { slpp_oracles::c18(s, p, only.as_deref()) };
 	let c07s = |s: &gen::Spec, p: &Progress| -> Outcome { slpp_oracles::c07s(s, p, only.as_deref()) };
 	let c10s = |s: &gen::Spec, p: &Progress| -> Outcome { slpp_oracles::c10s(s, p, only.as_deref()) };
+	let c09 = |s: &gen::Spec, p: &Progress| -> Outcome { c09::c09(s, p, only.as_deref()) };
 	let c07 = |s: &gen::Spec, p: &Progress| -> Outcome { oracles::c07(s, p, if searching { None } else { a1.as_ref().and_then(|x| x.parse().ok()) }) };
 	let check: oracles::Check = match name {
 		"c03" => &oracles::c03,
@@ -239,6 +241,7 @@ fn synth(cmd: &str, args: &[String]) -> i32 {
 		"c07s" => &c07s,
 		"c10s" => &c10s,
 		"c14" => &arrow_oracle::c14,
+		"c09" => &c09,
 		_ => {
 			eprintln!("unknown clause {}", cmd);
 			return 3;
@@ -261,6 +264,10 @@ fn synth(cmd: &str, args: &[String]) -> i32 {
 			// 2 minutes on 16 cores (stride 7: 589 cases, 3.4 minutes).  The stride is coprime to the group sizes, so the
 			// gecko / end / metadata combinations keep rotating.
 			"c07s" => thin(&mut cases, 11),
+			// a 16-bit boundary in the number of frame rows can only show on long games: a few 70000-frame replays
+			"c01" | "c02" | "c14" | "c17" | "c13" => cases.extend(gen::long_candidates()),
+			// only the newest layout can be relabelled around the version ceiling
+			"c09" => cases.retain(|c| c.ver == (3, 16, 0) && c.gecko.is_none()),
 			_ => {}
 		}
 		oracles::search(name, &cases, check, hang, t0)
